@@ -343,8 +343,14 @@ class PlanJoinTablesQuery:
                     if table_info is None:
                         raise PlanningException(f'Table not found for identifier: {node.to_string()}')
 
-                    # # replace identifies name
-                    col_parts = list(table_info.aliases[-1])
+                    # # replace identifies name: the shortest name that still means this table
+                    # (two members can share a short name: `int1.pred join mindsdb.pred` - then `pred` means the later one)
+                    alias = table_info.aliases[-1]
+                    for candidate in reversed(table_info.aliases):
+                        if self.tables_idx.get(candidate) is table_info:
+                            alias = candidate
+                            break
+                    col_parts = list(alias)
                     col_parts.append(node.parts[-1])
                     node.parts = col_parts
 
